@@ -155,3 +155,21 @@ func joinNames(fs map[string]bool) string {
 	sortStrings(s)
 	return strings.Join(s, ", ")
 }
+
+// knowsLt: among the first n literals the path carries x < c (integer comparisons are canonicalised to this form).
+func knowsLt(p *core.Path, n int, c int64, pred func(x *core.Term) bool) bool {
+	return hasLit(p, n, true, func(t *core.Term) bool {
+		v, isC := t.Args1Int()
+		return t.Kind == core.KLt && isC && v == c && pred(t.Args[0])
+	})
+}
+
+// knowsGe: the path carries x >= c.
+func knowsGe(p *core.Path, n int, c int64, pred func(x *core.Term) bool) bool {
+	return hasLit(p, n, false, func(t *core.Term) bool {
+		v, isC := t.Args1Int()
+		return t.Kind == core.KLt && isC && v == c && pred(t.Args[0])
+	})
+}
+
+func is(x *core.Term) func(*core.Term) bool { return func(y *core.Term) bool { return y == x } }
